@@ -259,7 +259,7 @@ func c02AggStream(w *c02World, st *c02Streams) {
 	q1, q2, q5, qH, q2b := hon("B1", 1), hon("B2", 2), hon("B5", 5), hon("BH", (1<<63)+5), hon("B2b", 2)
 	q2alt := w.mkQC(w.render(c02Spec{parts: w.genuine(c02Range(n-q+1, n), w.mBlock("B2"))}), 2, "B2")
 	qBad5 := w.mkQC(w.render(c02Spec{parts: w.genuine(c02Range(1, q-1), w.mBlock("B5"))}), 5, "B5") // sub-quorum
-	qRel := w.mkQC(q1.sig, 9, "B1")                                                                // view relabelled
+	qRel := w.mkQC(q1.sig, 9, "B1")                                                                 // view relabelled
 	qGenRel := w.mkQC(w.render(c02Spec{absent: true}), 8, "G")                                      // genesis QC relabelled
 	qRep := w.mkQC(w.render(c02Spec{parts: w.genuine(c02Rep(1, q), w.mBlock("B5"))}), 5, "B5")      // repeated signer
 	all := func(qc *c02QC) func(uint64) *c02QC { return func(uint64) *c02QC { return qc } }
